@@ -14,6 +14,7 @@ use std::cell::RefCell;
 use std::collections::{BTreeMap, BTreeSet, HashMap};
 use std::io::{BufRead, Write};
 use std::rc::Rc;
+use std::sync::Arc;
 
 type Index = BTreeIndex<u64, String>;
 
@@ -558,6 +559,222 @@ async fn run_queries(path: &str) {
     println!("{}", json!({"summary": true, "pops": npop, "cases": ncase, "checks": ncheck, "mismatches": bad}));
 }
 
+// ---------------------------------------------------------------------------------------------
+// thread-level schedule exploration (-> BTreeConcTrace.tla)
+
+fn observe_conc(cx: &Ctx, idx: &Index) -> Value {
+    let (owners, buckets) = idx.verif_layout();
+    let mut post = vec![json!([-1, []]); cx.nk];
+    let mut has = Vec::new();
+    for (k, b) in owners {
+        let kn = cx.key_no(&k);
+        let mut ids = idx.query_with(&k, |ids| Some(ids.clone())).unwrap_or_default();
+        ids.sort();
+        post[kn - 1] = json!([b, ids]);
+        has.push(kn);
+    }
+    has.sort();
+    let bt: Vec<usize> = idx.keys(None, None).iter().map(|s| cx.key_no(s)).collect();
+    let mut bex: Vec<u32> = buckets.iter().map(|b| b.0).collect();
+    bex.sort();
+    let mut dirty: Vec<u32> = buckets.iter().filter(|b| b.1).map(|b| b.0).collect();
+    dirty.sort();
+    let mut lst: Vec<(u32, Vec<usize>)> = buckets
+        .iter()
+        .map(|(b, _, ks)| {
+            let mut ks: Vec<usize> = ks.iter().map(|s| cx.key_no(s)).collect();
+            ks.sort();
+            (*b, ks)
+        })
+        .collect();
+    lst.sort();
+    json!({"has": has, "post": post, "bt": bt, "bex": bex, "dirty": dirty, "lst": lst,
+           "maxb": idx.stats().max_bucket_id})
+}
+
+fn apply_plain(cx: &Ctx, idx: &Index, op: &Value, now: u64) -> i64 {
+    let id = op["id"].as_u64().unwrap_or(0);
+    match op["op"].as_str().unwrap() {
+        "insert" => match idx.insert(id, cx.key(op["k"].as_u64().unwrap() as usize), now) {
+            Ok(true) => 1,
+            Ok(false) => 0,
+            Err(_) => -1,
+        },
+        "remove" => idx.remove(id, cx.key(op["k"].as_u64().unwrap() as usize), now) as i64,
+        "insert_array" => match idx.insert_array(id, ks_of(&op["ks"]).iter().map(|k| cx.key(*k)).collect(), now) {
+            Ok(n) => n as i64,
+            Err(_) => -1,
+        },
+        "remove_array" => idx.remove_array(id, ks_of(&op["ks"]).iter().map(|k| cx.key(*k)).collect(), now) as i64,
+        "compact" => {
+            idx.compact_buckets();
+            0
+        }
+        o => panic!("op {o}"),
+    }
+}
+
+async fn flush_to(idx: &Index, d: &Rc<RefCell<Durable>>) -> Vec<(u32, Vec<(String, Vec<u64>)>)> {
+    let (d1, d2) = (d.clone(), d.clone());
+    let written: Rc<RefCell<Vec<(u32, Vec<(String, Vec<u64>)>)>>> = Rc::new(RefCell::new(Vec::new()));
+    let w2 = written.clone();
+    let out = idx
+        .flush_owned_with(
+            9,
+            move |data: Vec<u8>| async move {
+                d1.borrow_mut().meta = Some(data);
+                Ok(())
+            },
+            move |o: BucketObject, data: Vec<u8>| {
+                let d2 = d2.clone();
+                let w2 = w2.clone();
+                async move {
+                    let bw: BucketWire = cbor2::from_reader(&data[..]).expect("bucket decodes");
+                    w2.borrow_mut().push((o.bucket_id, bw.p.into_iter().map(|(k, v)| (k, v.2)).collect()));
+                    d2.borrow_mut().objects.insert((o.bucket_id, o.generation), data);
+                    Ok(())
+                }
+            },
+        )
+        .await
+        .expect("flush");
+    for x in out.obsolete {
+        d.borrow_mut().objects.remove(&(x.bucket_id, x.generation));
+    }
+    written.take()
+}
+
+struct ConcStats {
+    schedules: u64,
+    events: u64,
+    blocked: u64,
+    deadlocks: u64,
+    migrations: u64,
+    final_mismatch: Vec<Value>,
+}
+
+fn run_conc_scenario(
+    rt: &tokio::runtime::Runtime,
+    sc: &Value,
+    out: &mut impl Write,
+    hdr: &mut (usize, u64, u32),
+    stats: &mut ConcStats,
+) {
+    use verif_harness::tsched::{self, Sched};
+    let nk = sc["nk"].as_u64().unwrap() as usize;
+    let uniq = sc["uniq"].as_bool().unwrap_or(false);
+    let respect_gate = sc["respect_gate"].as_bool().unwrap_or(true);
+    let cap = sc["cap"].as_u64().unwrap_or(200);
+    let programs: Vec<Vec<Value>> = sc["threads"].as_array().unwrap().iter().map(|p| p.as_array().unwrap().clone()).collect();
+    let n = programs.len();
+    hdr.0 = hdr.0.max(nk);
+    let mut prefix: Vec<usize> = Vec::new();
+    let mut explored = 0u64;
+    let mut rng_state = 0x9E3779B97F4A7C15u64 ^ (sc["seed"].as_u64().unwrap_or(1));
+    loop {
+        explored += 1;
+        let cx = Arc::new(Ctx { nk, long_keys: true });
+        let idx = Arc::new(new_index(!uniq));
+        let mut now = 1;
+        for op in sc["setup"].as_array().unwrap() {
+            now += 1;
+            apply_plain(&cx, &idx, op, now);
+        }
+        let durable = Rc::new(RefCell::new(Durable::default()));
+        rt.block_on(flush_to(&idx, &durable));
+        let init = observe_conc(&cx, &idx);
+        let sched = Sched::new(n);
+        sched.log(json!({"e": "reset", "tag": format!("{}#{}", sc["name"].as_str().unwrap(), explored), "uniq": uniq,
+                         "gate": respect_gate, "nthreads": n}));
+        sched.log(json!({"e": "init", "st": init}));
+        let mut handles = Vec::new();
+        for (tid, prog) in programs.iter().enumerate() {
+            let (sched, idx, cx, prog) = (sched.clone(), idx.clone(), cx.clone(), prog.clone());
+            handles.push(std::thread::spawn(move || {
+                let (i2, c2) = (idx.clone(), cx.clone());
+                sched.enter(tid, Arc::new(move || observe_conc(&c2, &i2)));
+                for (i, op) in prog.iter().enumerate() {
+                    let excl = op["op"] == "compact";
+                    sched.park(tid, "boundary", false, excl);
+                    sched.log(json!({"e": "call", "t": tid, "op": op["op"], "id": op["id"].as_u64().unwrap_or(0),
+                                     "k": op["k"].as_u64().unwrap_or(0), "ks": ks_of(&op["ks"])}));
+                    let r = std::panic::catch_unwind(std::panic::AssertUnwindSafe(|| apply_plain(&cx, &idx, op, 100 + i as u64)));
+                    let st = observe_conc(&cx, &idx);
+                    match r {
+                        Ok(ret) => {
+                            sched.log(json!({"e": "seg", "t": tid, "st": st}));
+                            sched.log(json!({"e": "ret", "t": tid, "ret": ret}));
+                        }
+                        Err(_) => sched.log(json!({"e": "panic", "t": tid})),
+                    }
+                }
+                sched.done(tid);
+            }));
+        }
+        let res = tsched::drive(&sched, &prefix, respect_gate, if respect_gate { 10_000 } else { 40 });
+        stats.blocked += res.blocked_seen as u64;
+        if res.deadlock {
+            // a deadlock is data: report it, leave the stuck threads behind and give up on this scenario
+            stats.deadlocks += 1;
+            std::mem::forget(handles);
+            let g = sched.inner.lock().unwrap();
+            stats.final_mismatch.push(json!({"scenario": sc["name"], "schedule": res.taken, "deadlock": true,
+                                             "log_tail": g.log.iter().rev().take(6).collect::<Vec<_>>()}));
+            return;
+        }
+        for h in handles {
+            let _ = h.join();
+        }
+        // quiescent: what a flush writes and what a cold load returns
+        let fin = observe_conc(&cx, &idx);
+        rt.block_on(flush_to(&idx, &durable));
+        let cold = rt.block_on(load(&durable.borrow(), !uniq)).expect("load");
+        let loaded = observe_conc(&cx, &cold);
+        let mut g = sched.inner.lock().unwrap();
+        g.log.push(json!({"e": "final", "st": fin, "loaded": loaded["post"], "loaded_bt": loaded["bt"],
+                          "schedule": res.taken, "deadlock": res.deadlock}));
+        for e in g.log.iter() {
+            if let Some(st) = e.get("st") {
+                hdr.2 = hdr.2.max(st["maxb"].as_u64().unwrap_or(0) as u32);
+                for b in st["bex"].as_array().unwrap() {
+                    hdr.2 = hdr.2.max(b.as_u64().unwrap() as u32);
+                }
+            }
+            writeln!(out, "{}", e).unwrap();
+        }
+        stats.events += g.log.len() as u64;
+        stats.schedules += 1;
+        // direct (harness-level) check as well: memory == reloaded
+        let content = |st: &Value| -> Vec<Value> { st["post"].as_array().unwrap().iter().map(|p| p[1].clone()).collect() };
+        if content(&fin) != content(&loaded) || fin["bt"] != loaded["bt"] {
+            if stats.final_mismatch.len() < 5 {
+                stats.final_mismatch.push(json!({"scenario": sc["name"], "schedule": res.taken, "memory": fin, "loaded": loaded}));
+            }
+        }
+        drop(g);
+        if explored >= cap {
+            break;
+        }
+        // next schedule: DFS while the tree is small, random restarts otherwise
+        if sc["random"].as_bool().unwrap_or(false) {
+            prefix = (0..64)
+                .map(|_| {
+                    rng_state ^= rng_state << 13;
+                    rng_state ^= rng_state >> 7;
+                    rng_state ^= rng_state << 17;
+                    (rng_state % 4) as usize
+                })
+                .collect();
+        } else {
+            match verif_harness::sched::next_schedule(&res.taken, &res.counts) {
+                Some(p) => prefix = p,
+                None => break,
+            }
+        }
+    }
+    let _ = hdr.1;
+}
+
 fn main() {
     let args: Vec<String> = std::env::args().collect();
     let rt = tokio::runtime::Builder::new_current_thread().enable_all().build().unwrap();
@@ -591,6 +808,34 @@ fn main() {
             println!("{}", json!({"summary": true, "histories": n, "events": log.ev.len()}));
         }
         "query" => rt.block_on(run_queries(&args[2])),
+        "conc" => {
+            verif_harness::tsched::install_hook();
+            let f = std::io::BufReader::new(std::fs::File::open(&args[2]).unwrap());
+            let body = format!("{}.body", &args[3]);
+            let mut out = std::io::BufWriter::new(std::fs::File::create(&body).unwrap());
+            let mut hdr = (0usize, 0u64, 1u32);
+            let mut stats = ConcStats { schedules: 0, events: 0, blocked: 0, deadlocks: 0, migrations: 0, final_mismatch: vec![] };
+            let mut nthreads = 0;
+            let mut uniq_all = false;
+            for l in f.lines() {
+                let l = l.unwrap();
+                if l.trim().is_empty() {
+                    continue;
+                }
+                let sc: Value = serde_json::from_str(&l).unwrap();
+                nthreads = nthreads.max(sc["threads"].as_array().unwrap().len());
+                uniq_all = sc["uniq"].as_bool().unwrap_or(false);
+                run_conc_scenario(&rt, &sc, &mut out, &mut hdr, &mut stats);
+            }
+            drop(out);
+            let mut fin = std::io::BufWriter::new(std::fs::File::create(&args[3]).unwrap());
+            writeln!(fin, "{}", json!({"e": "hdr", "nk": hdr.0, "ni": 6, "maxb": hdr.2 + 1, "nthreads": nthreads, "uniq": uniq_all})).unwrap();
+            let mut b = std::fs::File::open(&body).unwrap();
+            std::io::copy(&mut b, &mut fin).unwrap();
+            std::fs::remove_file(&body).unwrap();
+            println!("{}", json!({"summary": true, "schedules": stats.schedules, "events": stats.events, "blocked": stats.blocked,
+                                  "deadlocks": stats.deadlocks, "migrations": stats.migrations, "final_mismatch": stats.final_mismatch}));
+        }
         m => panic!("mode {m}"),
     }
 }
